@@ -41,6 +41,22 @@ def rcclass(rc):
     return {0x70: "current_fixed", 0x71: "deferred_fixed", 0x72: "current_descriptor", 0x73: "deferred_descriptor"}.get(rc, "unknown_response_code")
 
 
+RECENT = []  # (exception object, key, asc, ascq, text) of the last few conditions, re-inspected after every new one
+
+
+def recheck_recent(ctx, wit):
+    for exc, key, asc, ascq, text in RECENT:
+        got = (exc.data.get("sense_key") if isinstance(exc.data, dict) else None, getattr(exc, "asc", None), getattr(exc, "ascq", None))
+        try:
+            t = str(exc)
+        except Exception:  # noqa: BLE001
+            t = None
+        if got != (key, asc, ascq) or t != text:
+            ctx.fail("C08:earlier_condition_changed", "an earlier CheckCondition now reports %r / %r (was %r / %r) after another one was constructed"
+                     % (got, t, (key, asc, ascq), text), wit)
+        ctx.count("earlier_conditions_rechecked")
+
+
 def check(ctx, mod, ref, buf, want_text=True, sample=False):
     fmt, deferred, key, asc, ascq = ref.parse(buf)
     rc = buf[0] & 0x7F
@@ -50,12 +66,16 @@ def check(ctx, mod, ref, buf, want_text=True, sample=False):
     ctx.add("response_codes", "%02x" % rc)
     wit = {"sense": bytes(buf), "response_code": rc, "key": key, "asc": asc, "ascq": ascq, "len": len(buf)}
     for pd in (False, True):
+        mutable = bytearray(buf)
         try:
-            exc = mod.SCSICheckCondition(bytearray(buf), print_data=pd) if pd else mod.SCSICheckCondition(bytearray(buf))
+            exc = mod.SCSICheckCondition(mutable, print_data=pd) if pd else mod.SCSICheckCondition(mutable)
         except Exception as e:  # noqa: BLE001
             ctx.fail("C08:construct_raises.%s" % cls, "SCSICheckCondition(%s) raised %s: %s" % (bytes(buf)[:18].hex(), type(e).__name__, e), wit, exc=e)
             return
         ctx.count("constructed")
+        # a transport may reuse its sense buffer: what the condition reports is what the buffer held when it was raised
+        for i in range(len(mutable)):
+            mutable[i] = 0
         text = None
         try:
             sink = io.StringIO()
@@ -77,6 +97,11 @@ def check(ctx, mod, ref, buf, want_text=True, sample=False):
             ctx.fail("C08:str_raises.%s%s" % (cause, ".print_data" if pd and cause.startswith("other") else ""),
                      "str(SCSICheckCondition(rc=%02x key=%s asc=%s ascq=%s)) raised %s: %s" % (rc, key, asc, ascq, type(e).__name__, e), wit, exc=e)
             text = None
+        if fmt is not None and text is not None and not pd:
+            recheck_recent(ctx, wit)
+            RECENT.append((exc, exc.data.get("sense_key"), getattr(exc, "asc", None), getattr(exc, "ascq", None), text))
+            if len(RECENT) > 3:
+                RECENT.pop(0)
         if fmt is None:
             continue
         # values at the SPC positions
